@@ -1,5 +1,6 @@
 //! Deterministic simulator for prefix-trie. See /verif/DESIGN.md.
 
+mod aux;
 mod ctx;
 mod exec;
 mod key;
@@ -461,6 +462,7 @@ fn main() {
         #[cfg(feature = "threads")]
         "threads" => threads::cmd_threads(&a.opts),
         "miri" => threads::cmd_std(&a.opts),
+        "aux" => aux::cmd_aux(&a.opts),
         _ => {
             eprintln!("usage: sim run --property Cxx --tier quick|thorough [--seed N] [--runs N] [--threads N] | replay <file> | loghash | gen | threads");
             2
